@@ -292,6 +292,7 @@ func generate(f Family, rngSeed uint64, tier string) *Scenario {
 	go func() {
 		g := &Gen{Runner: NewRunner(rngSeed), rng: mrand.New(mrand.NewSource(int64(rngSeed))), tags: map[string]bool{}, tier: tier}
 		f.Gen(g)
+		g.reprobe()
 		g.Finish()
 		tags := []string{}
 		for t := range g.tags {
